@@ -188,6 +188,8 @@ pub fn ttl_for_sig(
     // Timestamps use serial number arithmetic. A signature that has
     // expired has no lifetime left.
     let now = Timestamp::now();
+    #[cfg(feature = "verif-hooks")]
+    let now = super::verif_clock::shift_timestamp(now);
     let expiration = sig.data().expiration();
     let until_expired = if now.canonical_gt(&expiration) {
         0
